@@ -14,12 +14,14 @@ EXTENDS Integers, Sequences, FiniteSets, TLC
 
 CONSTANTS MaxSteps, Codes,
           Variant    \* "asWritten" | "stickyHijack" (design mutation: a `hijacked` flag that Reset forgets)
+                     \* | "hijackByAssertion" (Hijack does w.rw.(http.Hijacker) instead of using a
+                     \*   ResponseController, so it does not look behind an Unwrap-only wrapper)
 
 VARIABLES code,    \* Go: w.code
           base,    \* Go: w.rw  (1 or 2)
           hijacked,\* no such field as written: always FALSE.  (stickyHijack: set by a successful Hijack)
           under,   \* calls received by each underlying writer
-          rets,    \* results of the Hijack calls so far: "ok", "fail", "unsupported"
+          rets,    \* the Hijack calls so far: [b |-> underlying writer, r |-> "ok" | "fail" | "unsupported"]
           passed,  \* codes passed to WriteHeader since the last Reset / creation
           wrote,   \* whether Write or WriteHeader was called since the last Reset / creation
           implicit,\* whether SetImplicitSuccess was called since then
@@ -31,9 +33,13 @@ VARIABLES code,    \* Go: w.code
 vars == <<code, base, hijacked, under, rets, passed, wrote, implicit, fresh, taken, steps>>
 
 (* Underlying writer 1 is an http.Hijacker and http.Flusher (its Hijack     *)
-(* succeeds or fails as scripted), writer 2 is a bare http.ResponseWriter.   *)
+(* succeeds or fails as scripted), writer 2 is a bare http.ResponseWriter,   *)
+(* writer 3 is a foreign Unwrap-only wrapper (http.ResponseWriter + Unwrap)  *)
+(* around another writer like 1: under[3] is what that inner writer gets.    *)
+(* http.ResponseController steps over Unwrap-only writers, so Hijack and     *)
+(* Flush reach the inner writer of 3.                                        *)
 Init == /\ code = 0 /\ base = 1 /\ hijacked = FALSE
-        /\ under = <<(<<>>), (<<>>)>>
+        /\ under = <<(<<>>), (<<>>), (<<>>)>>
         /\ rets = <<>>
         /\ passed = <<>> /\ wrote = FALSE /\ implicit = FALSE /\ fresh = TRUE /\ taken = FALSE
         /\ steps = 0
@@ -59,11 +65,11 @@ Write ==
 (* underlying writer's; mode 1: it succeeds, 2: it fails.                    *)
 Hijack(mode) ==
     /\ ~implicit /\ ~taken
-    /\ taken' = (base = 1 /\ mode = 1)
-    /\ IF base = 2
-         THEN /\ rets' = Append(rets, "unsupported") /\ UNCHANGED <<under, hijacked>>
+    /\ taken' = (base # 2 /\ ~(base = 3 /\ Variant = "hijackByAssertion") /\ mode = 1)
+    /\ IF base = 2 \/ (base = 3 /\ Variant = "hijackByAssertion")
+         THEN /\ rets' = Append(rets, [b |-> base, r |-> "unsupported"]) /\ UNCHANGED <<under, hijacked>>
          ELSE /\ under' = [under EXCEPT ![base] = Append(@, [op |-> "hj", c |-> mode])]
-              /\ rets' = Append(rets, IF mode = 1 THEN "ok" ELSE "fail")
+              /\ rets' = Append(rets, [b |-> base, r |-> IF mode = 1 THEN "ok" ELSE "fail"])
               /\ hijacked' = (hijacked \/ (Sticky /\ mode = 1))
     /\ fresh' = FALSE
     /\ UNCHANGED <<code, base, passed, wrote, implicit>>
@@ -72,7 +78,7 @@ Hijack(mode) ==
 (* writer, if that is an http.Flusher                                        *)
 Flush ==
     /\ ~implicit /\ ~taken
-    /\ under' = IF base = 1 THEN [under EXCEPT ![base] = Append(@, [op |-> "fl", c |-> 0])] ELSE under
+    /\ under' = IF base # 2 THEN [under EXCEPT ![base] = Append(@, [op |-> "fl", c |-> 0])] ELSE under
     /\ fresh' = FALSE
     /\ UNCHANGED <<code, base, hijacked, rets, passed, wrote, implicit, taken>>
 
@@ -104,6 +110,9 @@ AllowedCode == IF Len(passed) = 0 THEN NoneSet
                ELSE {passed[x] : x \in 1..Len(passed)}
                     \cup (IF \A x \in 1..Len(passed) : Informational(passed[x]) THEN NoneSet ELSE {})
 
+(* Hijack gets through to whatever http.ResponseController can reach: only  *)
+(* the bare writer 2 makes it "unsupported".                                 *)
+HijackReaches == \A x \in 1..Len(rets) : (rets[x].r = "unsupported") <=> (rets[x].b = 2)
 CodeOK == code \in AllowedCode
 LastWins == Len(passed) > 0 => code = passed[Len(passed)]      \* as written
 
@@ -115,7 +124,7 @@ Act(o) == \/ o.op = "wh" /\ WriteHeader(o.c)
           \/ o.op = "fl" /\ Flush
 
 Alphabet == {[op |-> "wh", c |-> c] : c \in Codes} \cup {[op |-> "w", c |-> 0], [op |-> "impl", c |-> 0]}
-            \cup {[op |-> "reset", c |-> b] : b \in {1, 2}}
+            \cup {[op |-> "reset", c |-> b] : b \in {1, 2, 3}}
             \cup {[op |-> "hj", c |-> m] : m \in {1, 2}} \cup {[op |-> "fl", c |-> 0]}
 
 Next == /\ steps < MaxSteps
